@@ -2,7 +2,7 @@
 import time
 from vp.runner import REPO
 from vp import atomic_map
-from props.shared import mu_groups, mu_lemmas, sem_groups, once_groups, cv_groups, cnt_groups
+from props.shared import mu_groups, mu_lemmas, sem_groups, once_groups, cv_groups, cnt_groups, note_groups, note_tree_groups
 
 ID = "C03"
 LEVEL = "other"
@@ -32,7 +32,7 @@ PARALLEL = 12
 
 def groups(tier):
     t = ["C03"]
-    return mu_groups(tags=t) + mu_lemmas(tags=t) + sem_groups(tags=t) + once_groups(tags=t) + cv_groups(tags=t) + cnt_groups(tags=t)
+    return mu_groups(tags=t) + mu_lemmas(tags=t) + sem_groups(tags=t) + once_groups(tags=t) + cv_groups(tags=t) + cnt_groups(tags=t) + note_groups(tags=t) + note_tree_groups(tags=t)
 
 
 def extra_checks(tier):
